@@ -206,6 +206,19 @@ def malformed_inputs(ctx, scale, rng):
     files = vlib.verif_corpus() + gapbad + structure_cases()
     files += vlib.sample_mutants(base, rng, n)
     files += vlib.noise_cases(base, rng, n // 6)
+    # byte changes deep inside compressed payloads (cels, tilemaps, tilesets): corrupt deflate data
+    zsites = []
+    for cid, b in base:
+        for kind, off, sz in vlib.walk_chunks(b):
+            if kind in ("chunk:2005", "chunk:2023") and sz > 60:
+                zsites.append((cid, b, off + 26, off + sz))
+    for k in range(min(n // 4, 40000) if zsites else 0):
+        cid, b, lo, hi = zsites[rng.randrange(len(zsites))]
+        m = bytearray(b)
+        for _ in range(1 if rng.random() < 0.7 else 2):
+            o = rng.randrange(lo, hi)
+            m[o] = rng.randrange(256) if rng.random() < 0.5 else m[o] ^ (1 << rng.randrange(8))
+        files.append((f"zdeep/{cid}/{k}", bytes(m)))
     if not ctx.quick and scale == 1:
         # thorough: EVERY single-field boundary mutation of every small corpus file
         for cid, b in vlib.corpus_files(max_size=1600):
@@ -267,6 +280,70 @@ def structure_cases():
     return out
 
 
+def inflate_correspondence(ctx, scale, res, n):
+    """the driver's instance of the model's `inflate` parameter against flate2 (the harness'
+    INFLATE request), on valid streams of every compression level and on corrupted ones
+    (byte changes anywhere in the stream, truncations, trailing bytes)"""
+    import zlib
+    rng = random.Random(ctx.seed * 7919 + scale)
+    raws = []
+    for cid, b in vlib.corpus_files(max_size=20000):
+        for kind, off, sz in vlib.walk_chunks(b):
+            if kind == "chunk:2005" and sz > 26 and struct.unpack_from("<H", b, off + 6 + 7)[0] == 2:
+                try:
+                    raws.append(zlib.decompressobj().decompress(b[off + 26:off + sz]))
+                except Exception:
+                    pass
+    raws = [r for r in raws if 0 < len(r) <= 8192][:40]
+    raws += [bytes(rng.randrange(4) for _ in range(rng.randrange(1, 600))) for _ in range(10)]
+    raws += [bytes(rng.randrange(256) for _ in range(rng.randrange(1, 300))) for _ in range(5)]
+    raws += [b"", bytes(1), bytes(70000), bytes(range(256)) * 3]
+    streams = []
+    for k, r in enumerate(raws):
+        for lvl in (0, 1, 6, 9):
+            streams.append((f"z/{k}/l{lvl}", zlib.compress(r, lvl)))
+    cases = list(streams)
+    small = [(c, z) for c, z in streams if len(z) < 3000]
+    truncated = set()
+    for i in range(n):
+        cid, z = small[rng.randrange(len(small))]
+        m = bytearray(z)
+        k = rng.randrange(6)
+        if k <= 2 and len(m) > 2:
+            # a byte change, biased towards the block headers / Huffman tables at the front
+            o = rng.randrange(min(len(m), 24)) if rng.random() < 0.4 else rng.randrange(len(m))
+            m[o] = rng.randrange(256) if rng.random() < 0.5 else m[o] ^ (1 << rng.randrange(8))
+        elif k == 3:
+            m = m[:rng.randrange(len(m) + 1)]
+            truncated.add(f"zmut/{i}")
+        elif k == 4:
+            m += bytes(rng.randrange(256) for _ in range(rng.randrange(1, 8)))
+        else:
+            for _ in range(rng.randrange(2, 5)):
+                m[rng.randrange(len(m))] = rng.randrange(256)
+        cases.append((f"zmut/{i}", bytes(m)))
+    reqs = [f"INFLATE {cid} {z.hex() if z else '-'}" for cid, z in cases]
+    mo, _ = vlib.run_model(reqs)
+    io, _ = vlib.run_impl(reqs)
+    outcomes = {}
+    for cid, z in cases:
+        a, b = mo.get(cid), io.get(cid)
+        res.evaluations += 1
+        res.compared += 1
+        key = (b or ["?"])[0].split(" ")[0] + (":" + (b or ["?"])[0].split(" ")[1][:20] if (b or ["?"])[0].startswith("err") else "")
+        outcomes[key] = outcomes.get(key, 0) + 1
+        # exact for valid streams and plain truncations; for corrupted streams the two decoders
+        # must agree on success and on the bytes, while the error class (end of input vs corrupt)
+        # depends on miniz_oxide's buffering and is compared only as "an error"
+        exact = cid.startswith("z/") or cid in truncated
+        same = (a == b) if exact else ((a == b) or ((a or ["?"])[0].startswith("err") and (b or ["?"])[0].startswith("err")))
+        if not same:
+            res.corr_diffs.append({"correspondence": "Ase.Zlib.inflate (the driver's instance of the model's inflate parameter) <-> flate2::read::ZlibDecoder",
+                                   "id": cid, "input_hex": z.hex(),
+                                   "first_difference": {"model": str(a)[:200], "impl": str(b)[:200]}})
+    res.distribution.update({"inflate:" + k: v for k, v in outcomes.items()})
+
+
 def malformed_routine(oracle, prefixes, rule, load_only):
     def run(ctx, scale):
         res = Result(rule)
@@ -290,6 +367,7 @@ def malformed_routine(oracle, prefixes, rule, load_only):
                 res.sections = sub.sections
                 del m, i
         res.distribution.update({"input:" + k: v for k, v in kinds.items()})
+        inflate_correspondence(ctx, scale, res, (3000 if ctx.quick else 150000) * scale)
         return res
     return run
 
